@@ -572,10 +572,15 @@ func c17StepText(c *c17StepCase, seen []string) (ops, impl []string, err error) 
 			}
 		}
 	}
-	var mparts []string
+	var cms []*labels.Matcher
 	for _, m := range c.Matchers {
-		mparts = append(mparts, c17TypeName(c17MatchType(m.Type))+":"+h.Hex([]byte(m.Name))+":"+h.Hex([]byte(m.Value)))
+		lm, err := labels.NewMatcher(c17MatchType(m.Type), m.Name, m.Value)
+		if err != nil {
+			return nil, nil, fmt.Errorf("generator made an invalid matcher: %v", err)
+		}
+		cms = append(cms, lm)
 	}
+	mparts := []string{c17MatcherArgs(cms)}
 	date := time.Unix(0, c.Start*1000000).UTC().Add(-30 * time.Minute).Format("2006-01-02")
 	fn := c.Func
 	if fn == "" {
@@ -617,7 +622,8 @@ func c17DownTie(c *c17StepCase, seen []string, ms []*labels.Matcher, got []c17Se
 	sel := append([]c17E2ESeries(nil), c.Series...)
 	sort.Slice(sel, func(i, j int) bool { return sel[i].Fp < sel[j].Fp })
 	for _, s := range sel {
-		if (s.Type != 2 && s.Type != 0) || !c17IdxSel(s, ms, true) {
+		// the series the label index selects: those whose label set satisfies every matcher (select_matches_prometheus)
+		if (s.Type != 2 && s.Type != 0) || !c17PromSel(s, ms) {
 			continue
 		}
 		for _, a := range c17Rows15(s) {
